@@ -49,6 +49,12 @@ pub struct Replay {
     /// no decision script: re-run from the seed (used when the run killed the worker process)
     #[serde(default)]
     pub rng_seed: Option<u64>,
+    /// crash replays re-execute the worker's whole chunk prefix [range_start, index] in one process: memory
+    /// corrupted by an earlier run of the same process may be what kills a later one
+    #[serde(default)]
+    pub range_start: Option<u64>,
+    #[serde(default)]
+    pub tier: Option<String>,
 }
 
 pub fn rle(ts: &[u8]) -> Vec<(u8, u32)> {
@@ -235,6 +241,7 @@ fn account(st: &mut WStats, d: &RunData, prop: &str) {
     WStats::bump(f, "F3_freeze_in_critical_section", s.cs_freezes);
     WStats::bump(f, "F4_spurious_park_returns", s.spurious_parks);
     WStats::bump(f, "F5_clock_jumps", s.clock_jumps);
+    WStats::bump(f, "F13_spurious_weak_cas_failures(none: kanal uses no weak CAS)", s.weak_cas_failures);
     WStats::bump(f, "F7_spurious_polls", d.counters[0]);
     WStats::bump(f, "F8_waker_replaced", d.counters[1]);
     WStats::bump(f, "F9_future_cancelled_while_pending", d.counters[2]);
@@ -318,6 +325,8 @@ pub fn write_replay(prop: &str, seed: u64, index: u64, d: &RunData, vio: &Violat
         log_hash: d.outcome.log_hash,
         minimised,
         rng_seed: None,
+        range_start: None,
+        tier: None,
     };
     let dir = format!("{}/replays", base_dir());
     let _ = std::fs::create_dir_all(&dir);
@@ -326,7 +335,7 @@ pub fn write_replay(prop: &str, seed: u64, index: u64, d: &RunData, vio: &Violat
     path
 }
 
-pub fn write_crash_replay(prop: &str, seed: u64, index: u64, tier: &str) -> String {
+pub fn write_crash_replay(prop: &str, seed: u64, index: u64, tier: &str, range_start: u64) -> String {
     let rs = run_seed(seed, prop, index);
     let case = check::make_case(prop, rs, index, tier);
     let rp = Replay {
@@ -343,6 +352,8 @@ pub fn write_crash_replay(prop: &str, seed: u64, index: u64, tier: &str) -> Stri
         log_hash: 0,
         minimised: false,
         rng_seed: Some(mix(rs, 0xE)),
+        range_start: Some(range_start),
+        tier: Some(tier.to_string()),
     };
     let dir = format!("{}/replays", base_dir());
     let _ = std::fs::create_dir_all(&dir);
@@ -551,7 +562,7 @@ pub fn cmd_check(prop: &str, tier: &str) -> i32 {
                         // reported as a violation with a seed-based replay, the rest of the chunk goes to a new worker
                         crashes += 1;
                         if crashes <= 40 {
-                            let path = write_crash_replay(prop, seed, last, &tier);
+                            let path = write_crash_replay(prop, seed, last, &tier, st);
                             vios.push(json!({"index": last, "sig": "crash/process-died", "detail": format!("the worker process died while executing run {} (signal or abort inside the simulated system)", last), "replay": path}));
                             if last + 1 < st + cnt {
                                 pending.push((last + 1, st + cnt - (last + 1)));
@@ -621,7 +632,7 @@ pub fn cmd_check(prop: &str, tier: &str) -> i32 {
         let died = out.status.code().is_none() || out.status.code().map_or(false, |c| c > 2);
         let confirmed = (out.status.code() == Some(1) && txt.contains("VIOLATION property=")) || (sig == "crash/process-died" && died);
         let fresh_sig = txt.lines().find_map(|l| l.trim().strip_prefix("signature=")).unwrap_or("").to_string();
-        if confirmed && fresh_sig != sig {
+        if confirmed && fresh_sig != sig && !sig.starts_with("crash/") {
             println!("note: in a fresh process the replay reports `{}` (worker: `{}`): the run reads memory whose content is not defined", fresh_sig, sig);
         }
         if !confirmed {
@@ -743,6 +754,28 @@ pub fn cmd_replay(path: &str) -> i32 {
             return 2;
         }
     };
+    if let (Some(_), Some(start)) = (rp.rng_seed, rp.range_start) {
+        // re-execute the worker's chunk prefix in this process; if the simulated system corrupts memory the
+        // process dies here exactly as the worker did
+        let tier = rp.tier.clone().unwrap_or("quick".into());
+        println!("re-executing runs {}..={} of {} (seed {}) in one process", start, rp.index, rp.property, rp.seed);
+        for i in start..=rp.index {
+            let rs = run_seed(rp.seed, &rp.property, i);
+            let case = check::make_case(&rp.property, rs, i, &tier);
+            let d = execute(&case, Source::Rng(mix(rs, 0xE)));
+            let (mine, _) = check::evaluate(&rp.property, &d);
+            if i == rp.index {
+                if let Some(v) = mine.first() {
+                    println!("VIOLATION property={} replay={}", rp.property, path);
+                    println!("  signature={}", v.sig);
+                    println!("  {}", v.detail);
+                    return 1;
+                }
+            }
+        }
+        println!("the process survived: no crash reproduced");
+        return 0;
+    }
     let src = match rp.rng_seed {
         Some(s) => Source::Rng(s),
         None => Source::Script { ts: unrle(&rp.ts), ds: rp.ds.clone(), strict: true },
